@@ -19,7 +19,7 @@ META = {
         'subtype, and relation_map() is keyed by it; R4 the importer sends a sense relation to sense_relations iff its target '
         'is a sense id, to sense_synset_relations iff a synset id, and raises otherwise (exhaustive three-way split); '
         'R5 relations()/get_related() dedupe order-preservingly and pass the requested types to the query. R7 a relation target '
-        'built field by field takes id, pos, ili, owning lexicon and rowid from the matching columns of its own row. R8 _iter_relations yields local and borrowed relations for every requested type list, with no other condition (shape of C12-R3). R9 relation-name literals of the convenience wrappers exist in the constants inventories. R10 the borrowed relations are complete: every in-scope synset with the target ILI is a target (C12-R1, C12-R2 on Synset._iter_expanded_relations). R11 a foreign-key parent joined only to report its id carries no lexicon filter. R12 the default-mode scope of an element is its whole extension family (C04-R4).'),
+        'built field by field takes id, pos, ili, owning lexicon and rowid from the matching columns of its own row. R8 _iter_relations yields local and borrowed relations for every requested type list, with no other condition (shape of C12-R3). R9 relation-name literals of the convenience wrappers exist in the constants inventories. R10 the borrowed relations are complete: every in-scope synset with the target ILI is a target (C12-R1, C12-R2 on Synset._iter_expanded_relations). R11 a foreign-key parent joined only to report its id carries no lexicon filter. R12 the default-mode scope of an element is its whole extension family (C04-R4). R13 relation types are registered from every relation of the lexicon being added (C05-R10).'),
     'decides': ['termination idioms', 'sibling agreement of relation queries', 'relation identity', 'importer split',
                 'type filter forwarding', 'visited sets hold entities', 'relation targets carry their own lexicon and rowid'],
     'not_decided': ['exactness of result sets (SQLite semantics)'],
